@@ -318,7 +318,14 @@ def rule_arena(R):
     c17.rule_used(R)
 
 
+def rule_final(R):
+    """the PUBACK ends the exchange whatever its reason code (shared with C18)"""
+    from .c18 import clause_remove_then_report
+    clause_remove_then_report(R, "final", arms=("PubAck",))
+
+
 def run(R):
+    R.rule("final", rule_final)
     R.rule("replay", rule_replay)
     R.rule("arena", rule_arena)
     R.rule("enq", rule_enq)
